@@ -549,7 +549,12 @@ def c02_state(ctx):
     state_discipline(ctx, ('bespokeasm.assembler.line_object', 'bespokeasm.assembler.label_scope', 'bespokeasm.assembler.memory_zone', 'bespokeasm.assembler.engine', 'bespokeasm.assembler.assembly_file', 'bespokeasm.assembler.bytecode.assembled', 'bespokeasm.assembler.bytecode.parts'))
 
 
-RULES = [c02_predefined, c02_1, c02_2, c02_3, c02_4, c02_5, c02_6, c02_macro_sizes, c02_zone_of_line, c02_state]
+def c02_file_state(ctx):
+    """"Unless an origin, alignment or zone directive intervenes": only directives of selected branches intervene (C05.5 / C08.3)."""
+    from rules.c05 import c05_5
+    c05_5(ctx)
+
+RULES = [c02_predefined, c02_1, c02_2, c02_3, c02_4, c02_5, c02_6, c02_macro_sizes, c02_zone_of_line, c02_state, c02_file_state]
 
 _E = 'assembler/engine.py'
 _FD = 'assembler/line_object/directive_line/fill_data.py'
